@@ -46,3 +46,23 @@ CHECKS["C10"] = dict(
          "proves to_cpu(x) == x*m + o for ALL x (mod 2^64 unsigned; exact and trap-free when it fits, signed); closed facts: m positive integer, o non-negative, one common unit "
          "dividing the model's gcd unit, offsets consistent with exact origins, type identical under permutation/repetition, equals an input exactly when m=1,o=0.",
     note=TB + "; lists enumerated; type-identity facts are compile-time booleans, not solver-decided.")
+CHECKS["C06"] = dict(
+    category="model_checking",
+    technique="closed compile-time trait values lowered through clang and compared with an independent predicate; bounded symbolic execution + SMT for the value-level consequence",
+    text="The implicit-conversion predicate is observed for a 10x10 rep grid x ratios straddling every threshold (incl. factors the target cannot represent: the query must compile - totality) "
+         "and must equal the documented predicate; for every permitted conversion into an integral rep the solver decides for ALL inputs: exact multiplication when it fits, "
+         "no overflow for |x| <= 2147 that the target can hold, no division in the kernel.",
+    note=TB + "; the predicate itself is a compile-time fact (closed obligations); a trait query that does not compile is reported as a lowering-stage VIOLATION; overload-resolution probes outside.")
+CHECKS["C13"] = dict(
+    category="translation_validation",
+    technique="solver equivalence (SMT over clang LLVM IR) of each Au operator kernel with the raw-operator reference kernel compiled in the same TU",
+    text="For 11 reps x several units: round trip through Quantity is the identity on bit patterns; every same-unit operator of Quantity and QuantityPoint is equivalent to the raw operator "
+         "on the rep for ALL operand values (same result bits, same trap condition); raw integer references are themselves checked against an exact integer oracle; layout/triviality/"
+         "result-type facts are closed compile-time booleans.",
+    note=TB + "; clang only (g++ and C++17/20 axes belong to C20); FP arithmetic NaN payloads are not modelled by SMT-LIB (two NaN results count as equal).")
+CHECKS["C19"] = dict(
+    category="translation_validation",
+    technique="solver equivalence (SMT over clang LLVM IR) of each ZERO kernel with the raw-zero reference kernel compiled in the same TU",
+    text="For 11 reps x several units and every bit pattern (NaN, inf, -0.0 included): q op ZERO / ZERO op q equal x op 0 / 0 op x, q +/- ZERO equals q at value level, "
+         "Quantity(ZERO), T(ZERO) and chrono duration(ZERO) are 0; rejection for QuantityPoint observed as closed trait booleans.",
+    note=TB + "; clang only; 'never accepted where a point is required' is observed only through is_constructible/is_convertible/is_assignable booleans.")
